@@ -153,6 +153,12 @@ def main():
     ctx.drain_events()
     ctx.finish()
     out.flush()
+    if os.environ.get('VP_LIB_VARIANT') == 'cov':
+        try:
+            import ctypes
+            ctypes.CDLL(os.environ['VP_LIB']).vp_cov_dump()
+        except Exception:
+            traceback.print_exc()
     os._exit(0)
 
 
